@@ -13,7 +13,8 @@ RULE = ("seeded add/remove/re-add/step/lookup histories (5-60 ops) over a pool o
         "(priorities with forced repeats, extremes, real Collector subclasses with the package's default priority) "
         "with rejected duplicate adds and unknown removals injected against the current state; non-trivial = a "
         "timestep ran while >=2 equal-priority systems registered at different times were live, and >=1 removal "
-        "was followed by a step; distinct = sequence of (op kind, queue position, queue length)")
+        "was followed by a step; distinct = sequence of (op kind, queue position, queue length)"
+        "; also: the SAME System object re-registered, systems with value-based __eq__, real Collector subclasses")
 COMPONENTS = {"real": ["ECAgent.Core.SystemManager.add_system/remove_system/execute_systems/__getitem__",
                        "ECAgent.Collectors.Collector (default priority)"],
               "stub": ["System.execute / Collector.collect bodies are harness recorders"]}
